@@ -74,34 +74,45 @@ TSpecW ==
     /\ Render /\ Adv
 TNameT ==
     /\ E.op = "namet"
-    /\ Bound(R.s = Text(lay))
+    /\ Bound(R.senc = Text(lay))
     /\ Check(t, l, "OutcomeSet", OkOr(O, NameTextSet(R.ascii = 1)))
     /\ Check(t, l, "Verdict", Matches(pm))
     /\ Render /\ Adv
 TText ==
     /\ E.op \in {"rdt", "ttl"}       \* (kinds rdt, rdg, ttl)
-    /\ Bound(R.s = Text(lay))
+    /\ Bound(R.senc = Text(lay))
     /\ Check(t, l, "OutcomeSet", OkOr(O, TextSet))
     /\ Check(t, l, "Verdict", Matches(pm))
     /\ Render /\ Adv
 \* zone files: every syntax error carries "<file>:<line>: " with a line of the input
 TZone ==
     /\ E.op \in {"zone", "rrsets"}
-    /\ Bound(R.s = Text(lay))
+    /\ Bound(R.senc = Text(lay))
     /\ Check(t, l, "OutcomeSet", OkOr(O, ZoneSet))
     /\ Check(t, l, "FileLine", "SyntaxError" \in O => E.fp = 1 /\ 1 <= E.ln /\ E.ln <= R.nl + 2)
     /\ Check(t, l, "Verdict", (E.op = "zone" /\ ZoneDecided(E.opts)) => Matches(pm))
     /\ Check(t, l, "ErrLine", (IsSpec /\ E.op = "zone" /\ ZoneDecided(E.opts) /\ pm = "err" /\ nf = 1
                                /\ "SyntaxError" \in O) => E.ln \in ErrLines(kind, base, hist))
     /\ Render /\ Adv
+\* a zone split over an $INCLUDEd file (read with allow_include): the file:line of a syntax
+\* error are those of the offending line - fi = 0 the top file, 1 the included one
+TZinc ==
+    /\ E.op = "zinc"
+    /\ Bound(R.senc = Text(ZincMain(lay)) /\ R.subenc = Text(ZincSub(lay)))
+    /\ Check(t, l, "OutcomeSet", OkOr(O, ZoneSet))
+    /\ Check(t, l, "FileLine", "SyntaxError" \in O => E.fp = 1 /\ 1 <= E.ln)
+    /\ Check(t, l, "Verdict", ZoneDecided(E.opts) => Matches(pm))
+    /\ Check(t, l, "ErrLine", (ZoneDecided(E.opts) /\ pm = "err" /\ nf = 2 /\ "SyntaxError" \in O) =>
+                                   E.fi = ZincErrFile(lay, hist) /\ E.ln \in ZincErrLines(lay, hist))
+    /\ Render /\ Adv
 TMsgT ==
     /\ E.op = "msgt"
-    /\ Bound(R.s = Text(lay))
+    /\ Bound(R.senc = Text(lay))
     /\ Check(t, l, "OutcomeSet", OkOr(O, LibSet))
     /\ Check(t, l, "Verdict", Matches(pm))
     /\ Render /\ Adv
 
 TraceNext == /\ l <= Len(Ev(t))
-             /\ (TMsg \/ TNameW \/ TOptRd \/ TSpecW \/ TNameT \/ TText \/ TZone \/ TMsgT)
+             /\ (TMsg \/ TNameW \/ TOptRd \/ TSpecW \/ TNameT \/ TText \/ TZone \/ TZinc \/ TMsgT)
 Accepted == Accepting(t, l)
 =============================================================================
